@@ -71,3 +71,25 @@ Theorem C04_tx : forall w p ps holder a w',
     (forall z c, c <> p -> c <> holder -> bal w' z c = bal w z c).
 Proof. exact tx_withdraw_effect. Qed.
 Print Assumptions C04_tx.
+
+From HT Require Import Amm.Known World.World Proofs.WFProofs Proofs.ReachProofs Proofs.SolventProofs Proofs.ReachCorollaries.
+Theorem C04_tx_reachable : forall w0 w p ps holder a w',
+  WF w0 -> Solvent w0 -> reachable w0 w ->
+  w_pairs w p = Some ps -> holder <> p -> holder <> p_lp ps ->
+  exec w (OSend (p_lp ps) holder p a HWithdraw) = Ok w' ->
+  exists total x0 x1,
+    token_supply w (p_lp ps) = Ok total /\
+    withdraw_amounts (bal w (p_a0 ps) p) (bal w (p_a1 ps) p) a total = Ok (x0, x1) /\
+    supply w' (p_lp ps) + a = total /\
+    bal w' (AToken (p_lp ps)) holder + a = bal w (AToken (p_lp ps)) holder /\
+    bal w' (AToken (p_lp ps)) p = bal w (AToken (p_lp ps)) p /\
+    bal w' (p_a0 ps) holder = bal w (p_a0 ps) holder + x0 /\ bal w' (p_a0 ps) p + x0 = bal w (p_a0 ps) p /\
+    bal w' (p_a1 ps) holder = bal w (p_a1 ps) holder + x1 /\ bal w' (p_a1 ps) p + x1 = bal w (p_a1 ps) p /\
+    (forall z c, c <> p -> c <> holder -> bal w' z c = bal w z c) /\
+    (* the pro-rata sandwich: r_i*a/total - r_i/10^18 - 1 < x_i <= r_i*a/total *)
+    (x0 * total <= bal w (p_a0 ps) p * a /\
+     bal w (p_a0 ps) p * a * D < (x0 + 1) * total * D + bal w (p_a0 ps) p * total) /\
+    (x1 * total <= bal w (p_a1 ps) p * a /\
+     bal w (p_a1 ps) p * a * D < (x1 + 1) * total * D + bal w (p_a1 ps) p * total).
+Proof. exact withdraw_tx_reachable. Qed.
+Print Assumptions C04_tx_reachable.
